@@ -243,6 +243,12 @@ fn cmd_gen(args: &[String]) {
             sets.push(("import-pairs".to_string(), m));
         }
     }
+    // systematic name shapes for every sanitising function
+    if arg(args, "--name-shapes", "1") == "1" {
+        for m in advgen::gen_name_shape_sets() {
+            sets.push(("name-shapes".to_string(), m));
+        }
+    }
     let mut cyclic_budget = max_cyclic;
     for k in 0..n {
         let odd = rng.chance(1, 3);
@@ -321,7 +327,8 @@ fn cmd_gen(args: &[String]) {
                 }
                 py_rep.insert(oname, same);
             }
-            xts.push(format!("(mkXT {} {} {} {})", sea_g, sa_variants.gs(), sm_variants.gs(), sa_class.gs()));
+            let invalid: Vec<String> = sea_j["o17"].as_array().map(|a| a.iter().filter_map(|x| x.as_str()).filter(|x| x.starts_with("invalid-")).map(|x| x.to_string()).collect()).unwrap_or_default();
+            xts.push(format!("(mkXT {} {} {} {} {})", sea_g, sa_variants.gs(), sm_variants.gs(), sa_class.gs(), invalid.gs()));
             // --- O-C18 in process: repeated renders and permuted slices
             let mut c18 = serde_json::Map::new();
             for (orm, oname) in ORMS {
@@ -458,7 +465,7 @@ fn cmd_gen(args: &[String]) {
         }
     }
     // FK-shaped sets (including cyclic ones) also go through every stage
-    for (tag, m) in sets.iter().filter(|(t, _)| !t.starts_with("corpus:") && t != "import-pairs").take(nevo) {
+    for (tag, m) in sets.iter().filter(|(t, _)| !t.starts_with("corpus:") && t != "import-pairs" && t != "name-shapes").take(nevo) {
         push16(&mut c16, &format!("models:{}", tag), m, &vec![], true);
     }
     std::fs::write(outdir.join("c16cases.jsonl"), c16).unwrap();
